@@ -70,7 +70,9 @@ LEVELS = {0: ["a", "b"], 1: ["x", "y"], 2: ["p", "q", "r"], 3: ["same", "diff"],
 
 def rand_shared_constraint(rng, cid, fid):
     kind = rng.choice(["AtMostKInARow", "AtMostKInARow", "AtMostKInARow-factor", "AtLeastKInARow", "ExactlyK",
-                       "ExactlyKInARow", "Pin", "AtLeastKInARow-factor"])
+                       "ExactlyKInARow", "Pin", "AtLeastKInARow-factor", "MinimumTrials", "ExactlyK"])
+    if kind == "MinimumTrials":
+        return {"id": cid, "kind": "MinimumTrials", "trials": rng.choice([3, 4, 5])}
     lvl = [fid, rng.choice(LEVELS[fid])]
     if kind.endswith("-factor"):
         return {"id": cid, "kind": kind[:-7], "k": rng.choice([1, 2]), "factor": fid}
@@ -332,6 +334,14 @@ def compare_block(shared_blk, fresh_blk, cache=None):
 def signature(program, bid, diff, shared_blk, fresh_blk):
     """Stable signature of a reuse failure."""
     stale = False
+    try:
+        def params(b):
+            return sorted((type(c).__name__, getattr(c, "k", None), getattr(c, "index", None), getattr(c, "trials", None))
+                          for c in b.constraints if type(c).__name__ in KIND)
+        if json.dumps(params(shared_blk)) != json.dumps(params(fresh_blk)) or shared_blk.min_trials != fresh_blk.min_trials:
+            return "reuse:constraint-parameter-changed"
+    except Exception:  # noqa
+        pass
     try:
         gs = sorted(repr(flat._geom(shared_blk, c.within_block)) for c in shared_blk.constraints if hasattr(c, "within_block"))
         gf = sorted(repr(flat._geom(fresh_blk, c.within_block)) for c in fresh_blk.constraints if hasattr(c, "within_block"))
